@@ -354,6 +354,27 @@ class Cfg:
 
 # ------------------------------------------------------------------ build
 
+def src_file_hashes():
+    """sha256 of every non-test Go source file of the repository (used only to SCALE the search: when the source differs from the
+    recorded baseline the checks run their deep generators at once; never a verdict)"""
+    out = {}
+    d = os.path.join(REPO, "src")
+    for fn in sorted(os.listdir(d)):
+        if fn.endswith(".go") and not fn.endswith("_test.go") and not fn.startswith("zz_verif"):
+            out[fn] = hashlib.sha256(open(os.path.join(d, fn), "rb").read()).hexdigest()
+    return out
+
+
+def src_changed_files():
+    bf = os.path.join(VERIF, "baseline_src.json")
+    try:
+        base = json.load(open(bf))
+    except Exception:
+        return []
+    cur = src_file_hashes()
+    return sorted(k for k in set(base) | set(cur) if base.get(k) != cur.get(k))
+
+
 def src_fingerprint():
     h = hashlib.sha256()
     for d in (os.path.join(REPO, "src"), os.path.join(VERIF, "harness")):
